@@ -112,6 +112,31 @@ static void run(void)
 		horizon_iters = 12000;
 		run_loop_until(~0ULL);
 		vp_log("loop returned after %d iterations at t=%llu", loop_iterations, (unsigned long long)vnow);
+	} else if (part == 2) {
+		/* heap shapes: n timers with pairwise distinct expiries (rank x 4 ms) inserted in EVERY order, then every way of
+		   deleting up to two of them (the heap fills the hole with its last entry: every hole/last-entry combination occurs),
+		   then the loop runs until the last one has fired: order, lateness and the timeouts are checked all the way */
+		int n = 2 + vp_choose(max_timers - 1, "number of timers"), used[MAXT] = { 0 }, nd, d;
+		horizon_iters = 400;
+		for (i = 0; i < n; i++) {
+			int left = 0, k, pick, r;
+			for (k = 0; k < n; k++) left += !used[k];
+			pick = vp_choose(left, "rank of the next timer added");
+			for (r = 0; r < n; r++) if (!used[r] && pick-- == 0) break;
+			used[r] = 1;
+			add_timer((uint64_t)(r + 1) * 4 * MS, 1);
+		}
+		nd = vp_choose(3, "timers deleted");
+		for (d = 0; d < nd; d++) {
+			int live[MAXT], nl = 0, id; int32_t r;
+			for (i = 0; i < ntm; i++) if (TM[i].live && !TM[i].deleted) live[nl++] = i;
+			id = live[vp_choose(nl, "which timer is deleted")];
+			r = qb_loop_timer_del(L, TM[id].h);
+			vp_log("del timer %d = %d", id, r);
+			if (r != 0) vp_fail("deleting pending timer %d failed: %d", id, r);
+			TM[id].deleted = 1;
+		}
+		run_loop_until(~0ULL);
 	} else {
 		int step;
 		horizon_iters = 400;
@@ -162,7 +187,8 @@ int main(int argc, char **argv)
 		.rule = "heap_histories=0: all tuples of 1..max_timers timers with durations from {0, 1 ns, 999999 ns, 1 ms, 50 ms, (2^31-1) ms, 2^31 ms, "
 			"(2^32-1) ms, 2^32 ms, 2^63 ns, 2^64-1 ns} x priorities, with and without a queued job, run on the real loop with a virtual "
 			"clock that advances by exactly the timeout the loop passes to epoll_wait (up to 12000 iterations, i.e. centuries of virtual "
-			"time); heap_histories=1: every history of <= depth operations over add(10/20/30 ms), delete(k-th pending), run-for-10-ms; "
+			"time); heap_histories=2: 2..max_timers timers with pairwise distinct expiries added in EVERY order, then every deletion of up to two "
+			"of them, then run to the end; heap_histories=1: every history of <= depth operations over add(10/20/30 ms), delete(k-th pending), run-for-10-ms; "
 			"oracle: never early, at most slack late, expiry order within a priority, every timeout finite/non-negative/not beyond the "
 			"earliest expiry + slack, is_running / time_remaining consistent, deleted timers never fire",
 		.assumptions = { "slack = 2 ms (ms rounding + one poll tick), plus 50 ms once a job has been queued", "virtual monotonic clock, real epoll", NULL },
